@@ -26,6 +26,7 @@ import (
 	"io"
 	"net"
 	"net/http"
+	"os"
 	"sort"
 	"strconv"
 	"strings"
@@ -291,6 +292,42 @@ func scenarioC20Serve(rc *RunCtx) *Violation {
 		}
 		progDesc = append(progDesc, fmt.Sprintf("client%d: %s", c, strings.Join(names, ",")))
 	}
+	if g.n(6) == 0 {
+		// "stream storm": event streams that are dropped quickly while another client keeps
+		// editing and rebuilding, so that change broadcasts meet streams that are going away
+		progs = progs[:0]
+		progDesc = progDesc[:0]
+		nClients = 2 + g.n(3)
+		for c := 0; c < nClients; c++ {
+			var ops []sOp
+			var names []string
+			if c == 0 {
+				ops = append(ops, sOp{Kind: "serve"})
+				names = append(names, "serve")
+				for i, n := 0, 3+g.n(5); i < n; i++ {
+					ops = append(ops, sOp{Kind: "edit"}, sOp{Kind: "rebuild"})
+					names = append(names, "edit", "rebuild")
+					if g.n(2) == 0 {
+						// let simulated time pass so that stream deadlines fall between rebuilds
+						d := []time.Duration{time.Millisecond, 10 * time.Millisecond, 60 * time.Millisecond}[g.n(3)]
+						ops = append(ops, sOp{Kind: "sleep", Dur: d})
+						names = append(names, "sleep("+d.String()+")")
+					}
+				}
+			} else {
+				ops = append(ops, sOp{Kind: "sleep", Dur: 60 * time.Millisecond})
+				names = append(names, "sleep(60ms)")
+				for i, n := 0, 1+g.n(3); i < n; i++ {
+					d := []time.Duration{time.Millisecond, 5 * time.Millisecond, 30 * time.Millisecond, 200 * time.Millisecond}[g.n(4)]
+					ops = append(ops, sOp{Kind: "stream", Dur: d})
+					names = append(names, "stream("+d.String()+")")
+				}
+			}
+			progs = append(progs, ops)
+			progDesc = append(progDesc, fmt.Sprintf("client%d: %s", c, strings.Join(names, ",")))
+		}
+		rc.Probe("serve_stream_storm")
+	}
 	rc.Note(fmt.Sprintf("serve proj:%x progs:%s sd:%d port:%d", fnv64(fmt.Sprint(describeProject(p, o))), strings.Join(progDesc, ";"), servedirMode, port))
 	rc.Sample("project", describeProject(p, o))
 	rc.Sample("client_programs", progDesc)
@@ -301,7 +338,11 @@ func scenarioC20Serve(rc *RunCtx) *Violation {
 	zeroDigest := resultDigest(&zero)
 	var ctxErr string
 	var netStats verifsim.NetStatsT
-	s := rc.Sim(SimOpts{Disk: d, MaxSteps: 6000000}, func() {
+	so := SimOpts{Disk: d, MaxSteps: 6000000}
+	if v := os.Getenv("VERIF_STALL_SITES"); v != "" {
+		so.StallSites = strings.Split(v, ",") // exploration aid
+	}
+	s := rc.Sim(so, func() {
 		for i := 0; i < nOccupied; i++ {
 			verifsim.Occupy(8000 + i)
 		}
@@ -399,13 +440,13 @@ func scenarioC20Serve(rc *RunCtx) *Violation {
 }
 
 type serveCheck struct {
-	rc     *RunCtx
-	ev     []verifsim.Event
-	p      *Project
-	port   int
-	prefix string
-	outRel []string
-	srcMod map[string]*Module
+	rc         *RunCtx
+	ev         []verifsim.Event
+	p          *Project
+	port       int
+	prefix     string
+	outRel     []string
+	srcMod     map[string]*Module
 	outdirName string // the output directory relative to the project root
 }
 
